@@ -156,7 +156,7 @@ else:
                 # use select to make sure there is at least one char to read.
                 rd,wr,er = select([stdin], [], [], 0.01)
                 if rd != []:
-                    char = as_string(stdin.read(1))
+                    char = as_string(stdin.read(1), 'latin-1')
             except KeyboardInterrupt:
                 # Pass along a CTRL-C interrupt.
                 raise
@@ -179,7 +179,7 @@ else:
             # use select to make sure there is at least one char to read.
             rd,wr,er = select([stdin], [], [], 0.01)
             if rd != []:
-                char = as_string(stdin.read(1))
+                char = as_string(stdin.read(1), 'latin-1')
         except KeyboardInterrupt:
             # Pass along a CTRL-C interrupt.
             raise
